@@ -306,6 +306,7 @@ def _overlay_eval(db, chk, cp, rule) -> bool:
 
         def mk():
             events = [{"ph": "X", "name": f"ev{i}", "pid": p_, "tid": t_, "ts": T.P(f"ts{i}"), "dur": T.P(f"dur{i}"), "args": {"device": -1}} for i, (p_, t_) in enumerate(SRC)]
+            events.append({"ph": "M", "name": "ev4", "pid": 0, "tid": 0, "args": {"name": "a metadata record (kept by every option)"}})
             raw = {"traceEvents": events, "distributedInfo": {"rank": 0}}
             E1 = Obj("E1", attrs={"begin": 10, "end": 11, "weight": T.P("w1"), "type": ("enum", "CPEdgeType", "OPERATOR_KERNEL")})
             E2 = Obj("E2", attrs={"begin": 11, "end": 20, "weight": T.P("w2"), "type": ("enum", "CPEdgeType", "KERNEL_LAUNCH_DELAY")})
@@ -347,12 +348,12 @@ def _overlay_eval(db, chk, cp, rule) -> bool:
         return False
     chk.analysed_add("functions", f"{CPM}:CriticalPathAnalysis.overlay_critical_path_analysis (abstract run)")
     src, flows = [x for x in te if not x.get("__flow__")], [x for x in te if x.get("__flow__")]
-    ok_src = [x.get("name") for x in src] == [f"ev{i}" for i in range(4)] and te[:len(src)] == src and \
-        all((x["pid"], x["tid"]) == SRC[i] and x["ts"] == T.P(f"ts{i}") and x["dur"] == T.P(f"dur{i}") and x["ph"] == "X" for i, x in enumerate(src))
+    ok_src = [x.get("name") for x in src] == [f"ev{i}" for i in range(5)] and te[:len(src)] == src and \
+        all((x["pid"], x["tid"]) == SRC[i] and x["ts"] == T.P(f"ts{i}") and x["dur"] == T.P(f"dur{i}") and x["ph"] == "X" for i, x in enumerate(src[:4])) and src[4].get("ph") == "M"
     chk.ob(rule, "[abstract run] the written file starts with every source event, unchanged and in the source order; flow events follow", ok_src, where,
-           found=[x.get("name") if not x.get("__flow__") else "flow" for x in te], accepted=["ev0", "ev1", "ev2", "ev3", "flow x 4"])
+           found=[x.get("name") if not x.get("__flow__") else "flow" for x in te], accepted=["ev0", "ev1", "ev2", "ev3", "ev4", "flow x 4"])
     marks = [x.get("args", {}).get("critical") for x in src] if ok_src else None
-    chk.ob(rule, "[abstract run] exactly the events of the critical path are marked critical", marks == [None, 1, 1, None] if marks is not None else None, where, found=marks, accepted=[None, 1, 1, None])
+    chk.ob(rule, "[abstract run] exactly the events of the critical path are marked critical", marks == [None, 1, 1, None, None] if marks is not None else None, where, found=marks, accepted=[None, 1, 1, None, None])
     want = [(0, (1, 2), True), (0, (1, 2), False), (1, (1, 2), True), (1, (0, 7), False)]
     got = [(x.get("id"), (x.get("pid"), x.get("tid")), x.get("is_start")) for x in flows]
     chk.ob(rule, "[abstract run] per critical edge one (start, end) flow pair with the edge's own id, on the process / thread of the events owning the begin and the end node", got == want, where,
@@ -360,7 +361,12 @@ def _overlay_eval(db, chk, cp, rule) -> bool:
     te2 = scenario(True)
     if te2 is not None and all(isinstance(x, dict) for x in te2):
         kept = [x.get("name") for x in te2 if not x.get("__flow__")]
-        chk.ob(rule, "[abstract run] only_show_critical_events keeps the critical events (and drops other duration events only)", kept == ["ev1", "ev2"], where, found=kept, accepted=["ev1", "ev2"])
+        chk.ob(rule, "[abstract run] only_show_critical_events keeps the critical events (and drops other duration events only)", kept == ["ev1", "ev2", "ev4"], where, found=kept, accepted=["ev1", "ev2", "ev4 (metadata)"])
+        got2 = [(x.get("id"), (x.get("pid"), x.get("tid")), x.get("is_start")) for x in te2 if x.get("__flow__")]
+        chk.ob(rule, "[abstract run] only_show_critical_events: the flow pairs are the same as without it (events are addressed by their position in the COMPLETE source list)", got2 == want, where,
+               found=[str(x) for x in got2], accepted=[str(x) for x in want], why="dropping the other events before the flow events are built shifts every position: the arrows land on other events")
+    else:
+        chk.ob(rule, "[abstract run] only_show_critical_events=True evaluated to the written file", None, where, found="the run did not reach the writer with a concrete event list")
     return True
 
 
